@@ -28,6 +28,8 @@ RULE = ('cases = decode: (dialect, context, text of one string literal / identif
         'name context, judged by the reader _dbl_value of this module (non-trivial = accepted), every keyword followed by '
         '`$` as a plain name, and encode of Decimal values (exact denotation of the printed token)')
 ASSUMPTIONS = [
+    'the identifier path in front of a call (ns.f(...)) is judged as [namespace,] name: no part may be dropped or taken for another; '
+    'the function\'s own name is compared modulo letter case and runs of white space (every operation node normalises its name that way)',
     'reference denotation = my reading of the token shapes (regexes) the three lexers declare; a backslash pairs with the '
     'next character in the mindsdb dialect, so \\\\ denotes one backslash; every other \\c except \\\' \\" is left open '
     '(admits `\\c`, `c` and MySQL\'s control character)',
@@ -58,7 +60,7 @@ FLOORS = {
               'erepr:exponent': 15, 'dialect:mysql': 4000, 'dialect:sqlite': 3000,
               # added with E7 / E8 and the Decimal grid (mostly enumerated: <= 1/3 of the minimum over 4 seeds at 8 shards)
               'decode:dbl': 1500, 'dbl-accepted:dq': 60, 'dbl-accepted:bq': 40, 'part:kw-then-dollar': 250, 'part:int-leading-zero': 30,
-              'num:beyond-double': 30, 'encode:dec': 50, 'epart:p:backquote': 400},
+              'num:beyond-double': 30, 'encode:dec': 50, 'epart:p:backquote': 400, 'function-name': 150},
     'thorough': {'__nontrivial__': 240000, 'decode:str': 150000, 'decode:path': 55000, 'decode:num': 2000,
                  'decode:var': 2300, 'encode:str': 20000, 'encode:path': 5000, 'encode:num': 800, 'encode:var': 700,
                  'exact': 120000, 'open-escape': 30000, "unit:''": 23000, 'unit:\\\\': 28000, 'empty-string': 180,
@@ -111,6 +113,14 @@ PATH_CTX = {
     'order': ('SELECT * FROM t ORDER BY {x}', lambda t: t.order_by[0].field),
     'insert': ('INSERT INTO {x} (a) VALUES (1)', lambda t: t.table),
     'func': ('SELECT f({x}) FROM t', lambda t: t.targets[0].args[0]),
+}
+# the name of a function call is an identifier path too: <namespace>.<name>(...)  (decode direction only)
+FN_CTX = {
+    'fname': ('SELECT {x}(a) FROM t', lambda t: t.targets[0]),
+    'fname-distinct': ('SELECT {x}(DISTINCT a) FROM t', lambda t: t.targets[0]),
+    'fname-noargs': ('SELECT {x}() FROM t', lambda t: t.targets[0]),
+    'fname-star': ('SELECT {x}(*) FROM t', lambda t: t.targets[0]),
+    'fname-where': ('SELECT * FROM t WHERE {x}(a, 1) = 1', lambda t: t.where.args[0]),
 }
 VAR_CTX = {k: LIT_CTX[k] for k in ('select', 'select-from', 'where', 'func')}
 SEPS = ['.', ' . ', '. ', ' .', '\n.\n', ' /* c */ . ']
@@ -338,6 +348,10 @@ def path_ok(d, parts, ctx):
             return False
     if len(parts) == 1 and parts[0][0] == 'dq' and ctx not in ('from', 'insert'):
         return False                         # a lone "..." is a string constant in expression position
+    if ctx in FN_CTX:
+        # function names: plain words that are no keywords, and back-quoted names (what else is a call is the grammar's business)
+        if any(s not in ('w', 'bq') or (s == 'w' and (reflex.keyword_of(v, d) or v[:1].isdigit() or '$' in v)) for s, v in parts):
+            return False
     return True
 
 
@@ -398,7 +412,7 @@ def judge_dpath(case, col):
         want = {'w': 'word', 'bq': 'bq', 'dq': 'dq', 'int': 'int', 'star': 'star'}[s]
         if rp[0] != want or (s in ('w', 'bq', 'int') and rp[1] != v):
             raise AssertionError(f'generator/reader disagreement on path {text!r} ({d}): {ref}')
-    tmpl, get = PATH_CTX[ctx]
+    tmpl, get = PATH_CTX[ctx] if ctx in PATH_CTX else FN_CTX[ctx]
     sql = tmpl.format(x=text)
     cfg = {'dialect': d}
     st_, r = _parse(sql, d)
@@ -430,6 +444,15 @@ def judge_dpath(case, col):
             classes.append('part:int-leading-zero')
         node = get(r)
         obs = getattr(node, 'parts', None) if _cls(node) == 'Identifier' else None
+        if ctx in FN_CTX:
+            classes.append('function-name')
+            if _cls(node) == 'Function':
+                # the name of the call: [namespace,] name; the letter case of the function's own name is left open
+                ns = getattr(node, 'namespace', None)
+                obs = ([ns] if ns is not None else []) + [node.op]
+                if len(obs) == len(ref) and isinstance(obs[-1], str) and isinstance(reflex.part_value(ref[-1]), str) \
+                        and ' '.join(obs[-1].lower().split()) == ' '.join(reflex.part_value(ref[-1]).lower().split()):
+                    obs = obs[:-1] + [reflex.part_value(ref[-1])]
         good = obs is not None and len(obs) == len(ref) and all(reflex.part_admits(p, o) for p, o in zip(ref, obs))
         if obs is None and len(parts) == 1 and parts[0][0] == 'w' and reflex.keyword_of(parts[0][1], d):
             classes.append('keyword-read-as-keyword')       # e.g. f(LAST): the grammar's business, not a name
@@ -1031,6 +1054,17 @@ def exhaustive(tier):
                 yield 'E3', {'k': 'dpath', 'd': d, 'parts': [['bq', ''.join(u)]], 'seps': ['.'], 'ctx': 'target'}
     # E4 paths over the part pool
     ctxs = sorted(PATH_CTX)
+    # E4f function-name paths: 1..3 parts over plain and back-quoted names x the five call forms
+    fn_pool = [['w', 'f'], ['w', 'Ns'], ['w', 'my_fn'], ['w', 'count'], ['w', 'b2'], ['bq', 'a b'], ['bq', 'x.y'], ['bq', 'Fn']]
+    for d in DIALECTS:
+        for n in (1, 2, 3):
+            for ci, combo in enumerate(itertools.product(fn_pool, repeat=n)):
+                if n == 3 and ci % 4:
+                    continue
+                for fc in sorted(FN_CTX):
+                    parts = [list(p) for p in combo]
+                    if path_ok(d, [tuple(p) for p in parts], fc):
+                        yield 'E4', {'k': 'dpath', 'd': d, 'parts': parts, 'seps': [SEPS[ci % 2]], 'ctx': fc}
     for d in DIALECTS:
         small = [['w', w] for w in WORDS] + [['bq', b] for b in BQ_POOL]
         if d in reflex.DQ_IDENT:
@@ -1209,7 +1243,7 @@ def cases(draw):
         q = draw(st.sampled_from(["'", '"']))
         return {'k': k, 'd': d, 'q': q, 'u': draw(_lit_units(d, q)), 'ctx': draw(st.sampled_from(sorted(LIT_CTX)))}
     if k == 'dpath':
-        ctx = draw(st.sampled_from(sorted(PATH_CTX)))
+        ctx = draw(st.sampled_from(sorted(PATH_CTX) + ['fname', 'fname-distinct']))
         parts = draw(_path_parts(d, ctx))
         seps = draw(st.lists(st.sampled_from(SEPS), min_size=1, max_size=3))
         return {'k': k, 'd': d, 'parts': parts, 'seps': seps, 'ctx': ctx}
